@@ -746,6 +746,13 @@ func (s *SecureChannel) handleOpenSecureChannelRequest(reqID uint32, svc ua.Requ
 		return ua.StatusBadSecureChannelTokenUnknown
 	}
 
+	// The server must only open the channel with
+	// security settings it has been configured with.
+	if s.cfg.AllowSecurity != nil && !s.cfg.AllowSecurity(s.cfg.SecurityPolicyURI, req.SecurityMode) {
+		s.c.SendError(ua.StatusBadSecurityPolicyRejected)
+		return ua.StatusBadSecurityPolicyRejected
+	}
+
 	s.cfg.Lifetime = req.RequestedLifetime
 	s.cfg.SecurityMode = req.SecurityMode
 
